@@ -2,8 +2,11 @@ package kafka
 
 import (
 	"context"
+	"crypto/tls"
 	"net"
 	"time"
+
+	pfindcoordinator "github.com/segmentio/kafka-go/protocol/findcoordinator"
 )
 
 // C10: guard discipline. The harness declares which mutex protects which field (from the comments in the source)
@@ -159,4 +162,30 @@ func VH_C10_Transport() {
 	t.CloseIdleConnections()
 	vhGuardCheck(false)
 	vhReach("c10-transport")
+}
+
+// C10-H5: the *tls.Config a program hands to a Transport is shared by every connection goroutine of that transport
+// (and by in-flight handshakes reading it): the library may read it but never writes to it - the per-connection
+// ServerName goes into a private copy. Declared as a read-only guard on the config's ServerName field; the path ends
+// where crypto/tls is entered (cut: Clone / Client are not interpreted), which is after any store connect could make.
+func VH_C10_TransportTLS() {
+	vhConcreteClock(true)
+	cfg := &tls.Config{}
+	fc := &vhFakeConn{}
+	ready := make(event)
+	close(ready)
+	p := &connPool{
+		dial:        func(ctx context.Context, network, address string) (net.Conn, error) { return fc, nil },
+		dialTimeout: time.Second, idleTimeout: time.Minute, clientID: "vh", tls: cfg,
+		ready: ready, wake: make(chan event), conns: make(map[int32]*connGroup),
+	}
+	p.ctrl = p.newConnGroup(&networkAddress{network: "tcp", address: "bootstrap:9092"})
+	p.setState(connPoolState{})
+	vhGuarded(cfg, "ServerName", "readonly")
+	vhGuardCheck(true)
+	vhReach("c10-transport-tls")
+	go p.roundTrip(context.Background(), &pfindcoordinator.Request{Key: "A"})
+	vhSettle()
+	vhGuardCheck(false)
+	vhAssert(cfg.ServerName == "", "the-programs-tls-config-is-not-modified")
 }
